@@ -41,4 +41,5 @@ func main() {
 	genWScreen()
 	genKeys()
 	genLockFacts()
+	genAcs()
 }
